@@ -156,10 +156,8 @@ impl Property for C05 {
             Content::Text(log) => log.tz_arg(),
             _ => "-t=+00:00".to_string(),
         };
+        // F22 (fixed eeda0b10): formerly excluded; still classified so that a return is reported under its own signature
         let hazard = case.codec.is_streamed() && matches!(case.content, Content::Text(_) | Content::BigText { .. }) && streamed_alignment_hazard(&data, case.bs);
-        if hazard && !case.allow_f22 {
-            return Outcome::discard("streamed block-alignment hazard (known finding F22)");
-        }
         let plain_dir = sc.subdir("plain");
         let plain = plain_dir.join(&name);
         std::fs::write(&plain, &data).unwrap();
